@@ -200,7 +200,7 @@ func evalScript(c scriptCase) (class, desc string, outLen int) {
 		}
 		now := time.Now().Unix() // tolerance is one hour: the verdict does not depend on the second
 		w := buildCS(csCase{Base: base, Mut: csMut{Kind: "none"}}, now)
-		exp := csOracle(w, now, base.TolMs, nil)
+		exp := csOracle(w, now, base.tolNs(), nil)
 		if exp.Verdict != mustRun || !exp.PlainOK {
 			return "harness-bad-case", "script base request is not valid by the oracle: " + exp.Reason, 0
 		}
